@@ -4,6 +4,8 @@ go 1.18
 
 require (
 	github.com/bmeg/grip v0.0.0
+	github.com/jmoiron/sqlx v1.2.0
+	github.com/lib/pq v1.2.0
 	google.golang.org/grpc v1.53.0
 	google.golang.org/protobuf v1.28.2-0.20230222093303-bc1253ad3743
 )
@@ -46,7 +48,6 @@ require (
 	github.com/hashicorp/go-plugin v1.4.2 // indirect
 	github.com/hashicorp/yamux v0.0.0-20180604194846-3520598351bb // indirect
 	github.com/influxdata/tdigest v0.0.1 // indirect
-	github.com/jmoiron/sqlx v1.2.0 // indirect
 	github.com/json-iterator/go v1.1.12 // indirect
 	github.com/kennygrant/sanitize v1.2.4 // indirect
 	github.com/klauspost/compress v1.16.0 // indirect
